@@ -1054,6 +1054,12 @@ fn scheduled_by(prefix: &[(usize, u64)], insts: &[Inst], roots: &[usize]) -> Vec
 }
 
 fn check_c11(p: &RtProgram, insts: &[Inst], roots: &[usize], start: u64, unlimited: &RealRun, info: &mut RunInfo) {
+    if let (Some(_), Some(e)) = (p.panic_uid, &unlimited.escaped_panic) {
+        // the driver caught the panic of one handler around `dispatch_all`; dispatching again and `finish` must work
+        info.violate(Violation::new("C11", "panic", format!(
+            "after a handler panic that the driver caught around dispatch_all the run could not be completed (pending events are lost): {e}")));
+        return;
+    }
     if unlimited.escaped_panic.is_some() || !unlimited.rejected.is_empty() {
         return; // not a limit problem
     }
